@@ -202,6 +202,8 @@ impl Prop for C07 {
     let c = cal();
     match t {
       "dates" => {
+        // strided walks on fresh threads (see engine::stride_walks)
+        stride_walks(env, out, "scd", env.tier.pick(1600, 48000) / nshards as u32, 7000 + shard as u64, 0, (crate::model::NDAYS as i64), 800, &|x| vec![x, 1], &ev);
         let (lo, hi) = shard_range(NDAYS, shard, nshards);
         let mut rev = Reverse::new(40);
         for i in lo..hi {
